@@ -1,5 +1,6 @@
 import BppModel.ObserverExt
 import BppProofs.Lemmas.ObserverWorld
+import BppProofs.Lemmas.GraphOrient
 /-!
 Helper lemmas for `Props/C14Copy.lean`: ownership of the objects stored by the identity-level copy
 constructor, its agreement with the label-level `copyObs`, and the world invariant across the
@@ -212,6 +213,14 @@ theorem world_setRootObj_inv {w : World} (hw : WInv w) (k a : Nat) : (w.setRootO
       rcases hr : G.setRoot id w.g with ⟨u, g'⟩ | g' <;> rw [hr] at hc hk <;> simp only [GOut.state] at hk
       · exact winv_graph_grow hw hc (by rw [hk.1]; exact hw.quiet) (fun n h => by rw [hk.2.1]; exact h) (fun e h => by rw [hk.2.2]; exact h)
       · exact winv_graph_grow hw hc (by rw [hk.1]; exact hw.quiet) (fun n h => by rw [hk.2.1]; exact h) (fun e h => by rw [hk.2.2]; exact h)
+
+theorem world_orientate_inv {w : World} (hw : WInv w) : WInv (w.graphOp w.g.orientate).2 := by
+  have hc := G.orientate_consistent hw.graph
+  have hn := G.orientate_notified hw.graph
+  unfold World.graphOp
+  rcases hr : w.g.orientate with ⟨v, g'⟩ | g' <;> rw [hr] at hc hn
+  · exact deliver_winv hw hc hn
+  · exact deliver_winv hw hc hn
 
 theorem mem_keys_of_has {β : Type} {k : Nat} {l : List (Nat × β)} (h : AL.has k l = true) : k ∈ AL.keys l := by
   unfold AL.has at h
